@@ -414,6 +414,12 @@ type PassedCall struct {
 // PassedValidators lists the calls of repository functions one of whose results is known,
 // by the branch facts holding on entry to b, to equal a constant.
 func (p *Program) PassedValidators(b *ssa.BasicBlock) []PassedCall {
+	return p.PassedValidatorsIn(FactsAt(b))
+}
+
+// PassedValidatorsIn is PassedValidators over an explicit list of facts (e.g. the facts at a
+// closure's creation site added to those of the block).
+func (p *Program) PassedValidatorsIn(facts []CondFact) []PassedCall {
 	var out []PassedCall
 	resultOf := func(v ssa.Value) (*ssa.Call, int, bool) {
 		v = Resolve(v)
@@ -433,7 +439,7 @@ func (p *Program) PassedValidators(b *ssa.BasicBlock) []PassedCall {
 		}
 		return nil, 0, false
 	}
-	for _, f := range FactsAt(b) {
+	for _, f := range facts {
 		// boolean results used as the condition itself: `if !f.writeTemp(p) { return }`, `v, ok := parse(x); if !ok {…}`
 		if c, idx, ok := resultOf(f.Cond); ok {
 			if bt, isB := f.Cond.Type().Underlying().(*types.Basic); isB && bt.Kind() == types.Bool {
